@@ -1,6 +1,7 @@
 package props
 
 import (
+	"bufio"
 	"bytes"
 	"fmt"
 	"reflect"
@@ -447,6 +448,11 @@ func mustFail(v interface{}, nm map[string]string, wide bool) string {
 	if e5 != nil {
 		return "Serializer.Write of the value, as the second message of a stream to a destination with a Flush method, returned nil"
 	}
+	// a refusal that put nothing on the stream must leave nothing in the encoder either: the values written before
+	// and after it on the same stream are then bytes that decode to the values written (§5 #40)
+	if msg := streamAroundRefusal(v, nm); msg != "" {
+		return msg
+	}
 	// and the next, representable, value is encoded as if the refused one had never been seen: an encode that
 	// "succeeds" with left-overs of the refused value in front is bytes that decode to something else
 	if e3 != nil || !bytes.Equal(b3, c13GoodBytes) {
@@ -454,6 +460,75 @@ func mustFail(v interface{}, nm map[string]string, wide bool) string {
 	}
 	if e4 != nil || !bytes.Equal(b4, c13GoodBytes) {
 		return fmt.Sprintf("after the refusal the package-level ToBytes encodes %v as %s (err %v); expected %s", c13Good, hexClip(b4, 40), e4, hexClip(c13GoodBytes, 40))
+	}
+	return ""
+}
+
+// c13Node is what is written around a refused value on one stream.
+type c13Node struct {
+	N    int32
+	Next *c13Node
+}
+
+// streamAroundRefusal writes a value, the refused value and a further value through one Encoder to one stream. When
+// the refused call left the stream as it was (no octet of a partial message: otherwise the caller was told and
+// nothing is claimed about what follows), the stream holds two well-formed values whose back-references must denote
+// what they stood for: an encode that succeeds with ordinals shifted by the refused value is bytes that decode to
+// something else.
+func streamAroundRefusal(v interface{}, nm map[string]string) string {
+	var buf bytes.Buffer
+	p, q := &c13Node{N: 5}, &c13Node{N: 6}
+	q.Next = q
+	first, after := []interface{}{p, "x"}, []interface{}{q, q, p}
+	var e1, e2, e3 error
+	n1, n2 := 0, 0
+	if pv, st := guard(func() {
+		e := hessian.NewEncoder(&buf, copyNames(nm))
+		e1 = e.WriteObject(first)
+		n1 = buf.Len()
+		e2 = e.WriteObject(v)
+		n2 = buf.Len()
+		if e1 == nil && e2 != nil && n1 == n2 {
+			e3 = e.WriteObject(after)
+		}
+	}); pv != nil {
+		return fmt.Sprintf("Encoder.WriteObject of the value as the second message of a stream panicked: %v [%s]", pv, st)
+	}
+	if e1 != nil || e2 == nil || n1 != n2 {
+		return ""
+	}
+	if e3 != nil {
+		return fmt.Sprintf("after a refusal that wrote nothing, the next WriteObject on the stream fails: %v", e3)
+	}
+	whole := append([]byte(nil), buf.Bytes()...)
+	var r1, r2 interface{}
+	var d1, d2 error
+	if pv, st := guard(func() {
+		d := hessian.NewDecoder(bufio.NewReader(bytes.NewReader(whole)), map[string]reflect.Type{"c13Node": reflect.TypeOf(c13Node{})})
+		r1, d1 = d.ReadObject()
+		if d1 == nil {
+			r2, d2 = d.ReadObject()
+		}
+	}); pv != nil {
+		return fmt.Sprintf("decoding the stream written around a refusal panicked: %v [%s]", pv, st)
+	}
+	bad := func(why string) string {
+		return fmt.Sprintf("a value, the refused value (error, nothing written) and %s through one Encoder: the stream %s %s", "[q q p]", hexClip(whole, 80), why)
+	}
+	if d1 != nil || d2 != nil {
+		return bad(fmt.Sprintf("cannot be decoded: %v / %v", d1, d2))
+	}
+	l1, ok1 := r1.([]interface{})
+	l2, ok2 := r2.([]interface{})
+	if !ok1 || !ok2 || len(l1) != 2 || len(l2) != 3 {
+		return bad(fmt.Sprintf("decodes to %T / %T", r1, r2))
+	}
+	gp, _ := l1[0].(*c13Node)
+	a, _ := l2[0].(*c13Node)
+	b, _ := l2[1].(*c13Node)
+	c, _ := l2[2].(*c13Node)
+	if gp == nil || a == nil || b == nil || c == nil || gp.N != 5 || a.N != 6 || a != b || a.Next != a || c != gp {
+		return bad(fmt.Sprintf("decodes to [%p ..] / [%p %p %p]: the references no longer denote what they stood for", gp, a, b, c))
 	}
 	return ""
 }
